@@ -25,6 +25,33 @@ WHY = {
  "C19-5": "padding was ASCII white space only",
  "C20-4": "the reference traversal followed the implementation's own alias resolution; generated programs rarely chain aliases across modules with relative names (C03 caught it at once)",
 }
+WHY.update({
+ "C02-5": "no attribute string had an escape followed by a multi-byte character",
+ "C02-6": "C02 compiles single programs without preprocessor directives (C06 and C15 caught it at once)",
+ "C03-5": "no generated identifier was spelled like a primitive",
+ "C04-6": "C04 compiles through compile_from_strings, where no DuplicateFile warning can exist (C07 and C17 caught it at once)",
+ "C05-6": "alias chains stayed inside one module in C05 (C03 caught it at once)",
+ "C06-5": "positions of diagnostics about malformed directives were not compared with anything; no non-ASCII text in front of them",
+ "C06-6": "directives were only ever placed between whole probe definitions, never inside an attribute list",
+ "C07-6": "no error class lived in a file without a module",
+ "C08-5": "C08's reference is the AST, which the change corrupts consistently (C16, whose reference is the model, caught it at once)",
+ "C08-6": "same; and C16's defect family had no well-formed comment after the defective one",
+ "C10-5": "no string longer than 16 KiB with a multi-byte character across a block boundary",
+ "C10-6": "every value was decoded by a fresh decoder",
+ "C12-5": "sizes stayed below 4 KiB",
+ "C12-6": "reservations were only ever used on the target that made them",
+ "C14-5": "C14 takes suppression levels from the library (C13 caught it at once)",
+ "C15-5": "no inheritance loop next to an interface deriving from it, without operations (C05 caught it at once)",
+ "C15-6": "no file listed twice with another file in between (C17 caught it at once)",
+ "C17-5": "C17 observes the compiled file set, not the generator request (C08 and C15 caught it at once)",
+ "C18-5": "the truncated reply carried no diagnostics, so no count byte >= 1 ended the reply (C11 caught it at once)",
+ "C19-6": "C19's multi-generator runs used healthy generators only (C18 caught it at once)",
+ "C19-7": "two particular code points out of 1.1 million",
+ "C16-6": "C16 observes the AST, not the request (C08 caught it at once)",
+ "C11-6": "C11 observes the codec; the change is in the binary's reply handling (C18 caught it at once)",
+ "C20-5": "no generated program held an empty file",
+ "C01-5": "?", "C01-6": "?",
+})
 
 def main():
     rnd = int(sys.argv[1]) if len(sys.argv) > 1 else 2
